@@ -1,6 +1,7 @@
 package sim
 
 import (
+	"encoding/json"
 	"pgregory.net/rapid"
 
 	"verif/harness/gen"
@@ -349,6 +350,12 @@ func GenScenario(t *rapid.T, p GenParams) Scenario {
 			st.Op = "get-groups"
 		case k < 18 && p.Reload:
 			st.Op = "reload"
+			if rapid.Bool().Draw(t, "reloadChange") {
+				// a changed configuration: same routing structure (so groups and their keys persist), other timers
+				c := cloneConfig(&cfg)
+				changeTimers(t, c.Route, timers{gw: 30, gi: 300, ri: 14400}, maxRI)
+				st.Config = c
+			}
 		case k < 19 && p.Restart:
 			st.Op = "restart"
 			st.Restart = sampled(t, "rk", "clean", "stale", "none")
@@ -377,4 +384,44 @@ func genSilenceMatcher(t *rapid.T, lss []map[string]string) ref.Matcher {
 	}
 	n := rapid.SampledFrom(names).Draw(t, "sn")
 	return ref.Matcher{Op: "=", Name: n, Value: ls[n]}
+}
+
+func cloneConfig(c *Config) *Config {
+	b, _ := json.Marshal(c)
+	var out Config
+	_ = json.Unmarshal(b, &out)
+	return &out
+}
+
+// changeTimers redraws repeat_interval (and sometimes group_interval) of nodes that set them, keeping
+// repeat_interval >= group_interval for the effective values and never above the original maximum of the
+// value set (retention was chosen for 14400 s at most).
+func changeTimers(t *rapid.T, r *Route, parent timers, maxRI int) {
+	eff := parent
+	if r.GroupWait != nil {
+		eff.gw = *r.GroupWait
+	}
+	if r.GroupInterval != nil {
+		if rapid.IntRange(0, 3).Draw(t, "chgi") == 0 {
+			r.GroupInterval = ip(sampled(t, "ngi", 30, 60, 300))
+		}
+		eff.gi = *r.GroupInterval
+	}
+	if r.RepeatInterval != nil {
+		if rapid.IntRange(0, 1).Draw(t, "chri") == 0 {
+			if v := sampled(t, "nri", 120, 600, 3600, 14400); v <= maxRI {
+				// retention was chosen for the original largest repeat_interval: stay within it
+				r.RepeatInterval = ip(v)
+			}
+		}
+		eff.ri = *r.RepeatInterval
+	}
+	if eff.ri < eff.gi {
+		// keep repeat_interval >= group_interval by lowering group_interval (never raise repeat_interval above maxRI)
+		eff.gi = 30
+		r.GroupInterval = ip(30)
+	}
+	for _, c := range r.Children {
+		changeTimers(t, c, eff, maxRI)
+	}
 }
